@@ -130,7 +130,7 @@ func (d *driver) report(all []*result, loadTime float64) int {
 	exit := 0
 	nViol, nKnown, nUnconfirmed := 0, 0, 0
 	witnessOK := map[string]bool{}
-	replayDir := filepath.Join(d.verif, "evidence", "replays")
+	replayDir := filepath.Join(outDir, "replays")
 	os.MkdirAll(replayDir, 0o755)
 	var rp *replayer
 	knownPrinted := map[string]bool{}
@@ -303,9 +303,9 @@ func (d *driver) report(all []*result, loadTime float64) int {
 	}, d.cfg.Outside...)
 	ev["wall_s"] = round2(time.Since(d.start).Seconds())
 	ev["violations"] = nViol
-	os.MkdirAll(filepath.Join(d.verif, "evidence"), 0o755)
+	os.MkdirAll(outDir, 0o755)
 	b, _ := json.MarshalIndent(ev, "", " ")
-	os.WriteFile(filepath.Join(d.verif, "evidence", d.prop+".json"), b, 0o644)
+	os.WriteFile(filepath.Join(outDir, d.prop+".json"), b, 0o644)
 	fmt.Printf("%s tier=%s: instances=%d paths=%d queries=%d proved-assertions=%d violations=%d known=%d unconfirmed=%d inconclusive=%d wall=%.1fs\n",
 		d.prop, d.tier, len(all), states, transitions, proved, nViol, nKnown, nUnconfirmed, len(inconclusive), time.Since(d.start).Seconds())
 	if d.validation != nil && len(d.validation.mismatches) > 0 && exit == 0 {
